@@ -51,7 +51,7 @@ func uf(name string, args []int, res int) {
 	}
 }
 
-func sha1Sym(in []Term) []Term {
+func (e *Engine) sha1Sym(in []Term) []Term {
 	allc := true
 	for _, t := range in {
 		if !t.IsConst() {
@@ -68,6 +68,9 @@ func sha1Sym(in []Term) []Term {
 		for i := range h {
 			out[i] = BV(8, int64(h[i]))
 		}
+		if len(in) > 0 {
+			e.recordHash("sha1", len(in), ConcatBytes(in), ConcatBytes(out))
+		}
 		return out
 	}
 	if len(in) == 0 {
@@ -75,7 +78,10 @@ func sha1Sym(in []Term) []Term {
 	}
 	name := fmt.Sprintf("sha1_%d", len(in))
 	uf(name, []int{8 * len(in)}, 160)
-	return SplitBytes(App(name, 160, ConcatBytes(in)))
+	inT := ConcatBytes(in)
+	outT := App(name, 160, inT)
+	e.recordHash("sha1", len(in), inT, outT)
+	return SplitBytes(outT)
 }
 
 type aesBlock struct{ key Term }
@@ -273,6 +279,8 @@ func init() {
 	R("Or", func(e *Engine, fr *frame, a []Value) Value { return Or(a[0].(Term), a[1].(Term)) })
 	R("Not", func(e *Engine, fr *frame, a []Value) Value { return Not(a[0].(Term)) })
 	R("Implies", func(e *Engine, fr *frame, a []Value) Value { return Or(Not(a[0].(Term)), a[1].(Term)) })
+	R("IteByte", func(e *Engine, fr *frame, a []Value) Value { return Ite(a[0].(Term), a[1].(Term), a[2].(Term)) })
+	R("IteInt", func(e *Engine, fr *frame, a []Value) Value { return Ite(a[0].(Term), a[1].(Term), a[2].(Term)) })
 	R("IteU64", func(e *Engine, fr *frame, a []Value) Value { return Ite(a[0].(Term), a[1].(Term), a[2].(Term)) })
 	R("SameBytes", func(e *Engine, fr *frame, a []Value) Value {
 		x, y := sliceTerms(a[0]), sliceTerms(a[1])
@@ -330,7 +338,7 @@ func init() {
 
 	// ---- hashes
 	intrinsics["crypto/sha1.Sum"] = func(e *Engine, fr *frame, a []Value) Value {
-		h := sha1Sym(sliceTerms(a[0]))
+		h := e.sha1Sym(sliceTerms(a[0]))
 		out := make(Array, 20)
 		for i := range h {
 			out[i] = h[i]
@@ -369,6 +377,13 @@ func init() {
 				}
 				for i := range yb {
 					dst.a[i] = BV(8, int64(yb[i]))
+				}
+				return nil
+			}
+			// D(k, E(k, x)) -> x syntactically when visible
+			if n := nodeOf(x); n != nil && n.op == "app:"+inv && sameT(n.args[0], b.key) {
+				for i, t := range SplitBytes(n.args[1]) {
+					dst.a[i] = t
 				}
 				return nil
 			}
